@@ -1814,7 +1814,6 @@ func handlerValueOnlyFrom(c *chk.Ctx, h, fn *ssa.Function) bool {
 	return found && ok
 }
 
-
 // invokeTaskArg returns the argument of an invoke call site that is the task
 // itself (when the invoke function takes the task rather than its fields).
 func invokeTaskArg(c *chk.Ctx, s ssa.CallInstruction) ssa.Value {
@@ -1838,7 +1837,6 @@ func invokeSiteTask(c *chk.Ctx, s ssa.CallInstruction) ssa.Value {
 	}
 	return nil
 }
-
 
 // isNotesCount: v is the counting function's notification count: its second
 // result, or the second field of its result struct.
